@@ -2,17 +2,26 @@
   Engine `oscbuf` (C02): fixed-buffer discipline.  One op line = one message or bundle built
   into destinations of every capacity `lo..hi` (each an exact-size block pre-filled with 0xAA).
 
-    M <A|V> <lo> <hi> <addr-hex> <tags-hex> <arg-token>*    rtosc_amessage / rtosc_vmessage
+    M <A|V|L> <lo> <hi> <addr-hex> <tags-hex> <arg-token>*  rtosc_amessage / rtosc_vmessage (hand-built
+                                                            va_list) / rtosc_message (literal call site:
+                                                            the type string must be one of `templates`)
+    J <A|V> <lo> <hi> <addr-hex> <tags-hex> <arg-token>*    the same with a type string that contains bytes
+                                                            which are no type tags: outside the property's
+                                                            input space, the model is not consulted
     B <lo> <hi> <tree>                                      rtosc_bundle (tree: see BundleEngine; the
                                                             capacity of the top-level node is replaced)
     T <maxmsg> <addr-hex> <tags-hex> <arg-token>*           ThreadLink::writeArray
     W<k> <maxmsg> <addr-hex> <arg-token>*                   ThreadLink::write, k-th literal call site
-    R<k> <addr-hex> <arg-token>*   /   Q<k> …               RtData::reply / broadcast, k-th call site
+    R<k> <N> <cap> <addr-hex> <arg-token>*   /   Q<k> …     RtData::reply / broadcast, k-th call site; N and
+                                                            cap: size of the wrapper's stack buffer and the
+                                                            capacity it passes, read from ports.cpp by the check
 
   arg tokens as in engine `osc`:  w<8 hex>  q<16 hex>  m<8 hex>  s<hex|->  b<len>:<hex|-|N>
-  Output of M:  z=<ret for NULL buffer> g=ok c=<cap>:<ret>:<bytes>,…     (B: without z=)
+  Output of M:  z=<ret for (NULL,0)> zh=<ret for (NULL,hi)> g=ok c=<cap>:<ret>:<bytes>,…     (B: only g= c=)
     bytes: the `ret` bytes written; after a failed call (ret = 0) the whole block — hex, `z<n>` for n
     zero bytes, `-` for the empty block; `g=` is the harness' canary verdict.
+  Output of J:  g=ok safe   (the harness itself checks: no store outside, ret = 0 with a zero-filled
+    block or 0 < ret ≤ cap)
   If the model predicts an out-of-bounds store or read the line is the sanitizer's verdict.
 -/
 import Driver.BundleEngine
@@ -63,9 +72,12 @@ def toVa : Bytes → List CArg → Option (List VaArg)
         | .str s => rest.map (VaArg.cstr s :: ·)
         | .blob len data => rest.map (fun r => VaArg.int len :: VaArg.ptr data :: r)
 
-def construct (mode : String) (buffer : Option Bytes) (addr tags : Bytes) (args : List CArg) : Option AResult :=
-  if mode = "A" then amessage buffer addr tags args
-  else if mode = "V" then (toVa tags args).bind fun va => vmessage narrowF64 buffer addr tags va
+/-- the call with the destination block `blk` and the capacity `len` the caller passes -/
+def construct (mode : String) (blk : Option Bytes) (len : Nat) (addr tags : Bytes) (args : List CArg) :
+    Option AResult :=
+  if mode = "A" then amessageAt blk len addr tags args
+  else if mode = "V" then (toVa tags args).bind fun va => vmessageAt narrowF64 blk len addr tags va
+  else if mode = "L" then (toVa tags args).bind fun va => rtoscMessage narrowF64 blk len addr tags va
   else none
 
 def fresh (cap : Nat) : Bytes := List.replicate cap (170 : UInt8)
@@ -79,23 +91,25 @@ def sweep (lo hi : Nat) (call : Bytes → Except Fail (Bytes × Nat)) : Except F
     parts := s!"{cap}:{ret}:{shown}{if ret > cap then "!ret-exceeds-len" else ""}" :: parts
   return ",".intercalate parts.reverse
 
-def templates : List String := ["", "s", "isi", "ss", "b", "ifs", "sT", "hd"]
+/-- type strings of the literal call sites (same list in harness/oscbuf.cpp and tools/props/c02.py) -/
+def templates : List String :=
+  ["", "s", "isi", "ss", "b", "ifs", "sT", "hd", "c", "m", "tS", "rf", "TFNI", "iiiiiiii", "sbs", "dfhi", "[sb]i"]
 
 def tagsOf (s : String) : Bytes := s.toList.map fun c => UInt8.ofNat c.toNat
 
 def stepM (mode : String) (lo hi : Nat) (addr tags : Bytes) (args : List CArg) : String :=
-  match construct mode none addr tags args with
-  | none => "unmodelled"
-  | some nul =>
+  match construct mode none 0 addr tags args, construct mode none hi addr tags args with
+  | some nul, some nulHi =>
     let r := sweep lo hi fun buf =>
-      match construct mode (some buf) addr tags args with
+      match construct mode (some buf) buf.length addr tags args with
       | some ⟨some b, ret, false⟩ => .ok (b, ret)
       | some ⟨_, _, true⟩ => .error .oob
       | _ => .error .hang
     match r with
-    | .ok c => s!"z={nul.ret} g=ok c={c}"
+    | .ok c => s!"z={nul.ret} zh={nulHi.ret} g=ok c={c}"
     | .error .oob => crash
     | .error .hang => "unmodelled"
+  | _, _ => "unmodelled"
 
 def stepB (lo hi : Nat) (toks : List String) : String :=
   match parseTree toks with
@@ -122,13 +136,15 @@ def tlinkState (maxMsg : Nat) (res : Option AResult) : String :=
   | some ⟨_, _, true⟩ => crash
   | _ => "unmodelled"
 
+def stackCrash : String := "crash:asan:stack-buffer-overflow"
+
 def replyState (tag : String) (res : Option AResult) : String :=
   match res with
+  | some ⟨_, _, true⟩ => stackCrash
   | some ⟨some b, _, false⟩ =>
     match messageLength b with
     | some l => s!"{tag}={l}:{toHex (b.take l)}"
     | none => hang
-  | some ⟨_, _, true⟩ => crash
   | _ => "unmodelled"
 
 def step (line : String) : String :=
@@ -136,7 +152,14 @@ def step (line : String) : String :=
   | "M" :: mode :: lo :: hi :: a :: t :: toks =>
     match lo.toNat?, hi.toNat?, ofHex a, ofHex t, toks.mapM parseArg with
     | some lo, some hi, some addr, some tags, some args =>
-      if hi < lo ∨ (mode ≠ "A" ∧ mode ≠ "V") then "bad-op" else stepM mode lo hi addr tags args
+      if hi < lo ∨ (mode ≠ "A" ∧ mode ≠ "V" ∧ mode ≠ "L") then "bad-op"
+      else if mode = "L" ∧ ¬ templates.any (fun t => tagsOf t = tags) then "bad-op"
+      else stepM mode lo hi addr tags args
+    | _, _, _, _, _ => "bad-op"
+  | "J" :: mode :: lo :: hi :: a :: t :: toks =>
+    match lo.toNat?, hi.toNat?, ofHex a, ofHex t, toks.mapM parseArg with
+    | some lo, some hi, some _, some _, some _ =>
+      if hi < lo ∨ (mode ≠ "A" ∧ mode ≠ "V") then "bad-op" else "g=ok safe"
     | _, _, _, _, _ => "bad-op"
   | "B" :: lo :: hi :: toks =>
     match lo.toNat?, hi.toNat? with
@@ -145,7 +168,7 @@ def step (line : String) : String :=
   | "T" :: mm :: a :: t :: toks =>
     match mm.toNat?, ofHex a, ofHex t, toks.mapM parseArg with
     | some maxMsg, some addr, some tags, some args =>
-      if maxMsg < 1 then "bad-op" else tlinkState maxMsg (tlinkWriteArray (zeros maxMsg) addr tags args)
+      if maxMsg < 1 then "bad-op" else tlinkState maxMsg (tlinkWriteArray (zeros maxMsg) maxMsg addr tags args)
     | _, _, _, _ => "bad-op"
   | op :: rest =>
     let k := (op.drop 1).toString.toNat?
@@ -159,19 +182,19 @@ def step (line : String) : String :=
           else
             let tags := tagsOf tpl
             tlinkState maxMsg ((toVa tags args).bind fun va =>
-              tlinkWrite narrowF64 (zeros maxMsg) addr tags va)
+              tlinkWrite narrowF64 (zeros maxMsg) maxMsg addr tags va)
         | _, _, _ => "bad-op"
       | _ => "bad-op"
     | some c, some tpl =>
       if c = 'R' ∨ c = 'Q' then
         match rest with
-        | a :: toks =>
-          match ofHex a, toks.mapM parseArg with
-          | some addr, some args =>
+        | n :: cp :: a :: toks =>
+          match n.toNat?, cp.toNat?, ofHex a, toks.mapM parseArg with
+          | some bufN, some cap, some addr, some args =>
             let tags := tagsOf tpl
             replyState (if c = 'R' then "reply" else "broadcast")
-              ((toVa tags args).bind fun va => rtdataReply narrowF64 (fresh 8192) addr tags va)
-          | _, _ => "bad-op"
+              ((toVa tags args).bind fun va => rtdataReply narrowF64 (fresh bufN) cap addr tags va)
+          | _, _, _, _ => "bad-op"
         | _ => "bad-op"
       else "bad-op"
     | _, _ => "bad-op"
